@@ -177,11 +177,39 @@ def run_value(mon, ds, capmod, v, rnd):
         mon.scan_lambda(entry, s.query_ast.args[1])
 
 
+WRITTEN = [
+    "lambda e: None", "lambda e: ...", "lambda e: e.x == None", "lambda e: (e.x, None)", "lambda e: e.f(None)", "lambda e: e.f(k=...)",
+    "lambda e: e.jets.Select(lambda j: None)", "lambda e: {'a': None}", "lambda e: [1, ...]", "lambda e: e.x if e.y else None",
+    "lambda e: e.jets.Where(lambda j: j.pt > 1).Select(lambda j: (j.pt, None))", "lambda e: 1j", "lambda e: b'x'", "lambda e: 'a'",
+]
+
+
+def written_constants(mon, ds):
+    """Constants written in the lambda itself (string / ast supply): the emitted lambda may only hold transportable ones."""
+    ctx = mon.ctx
+    for text in WRITTEN:
+        for opname in ("Select", "SelectMany", "Where"):
+            for mode in ("string", "ast"):
+                entry = f"written.{opname}.{mode}"
+                ctx.case(entry + "|" + text, True)
+                ctx.count("entry:written-constant")
+                try:
+                    s = getattr(ds, opname)(text if mode == "string" else astx.parse_expr(text))
+                except ValueError:
+                    ctx.count("refused-with-ValueError:written-constant")
+                    continue
+                except Exception as e:
+                    ctx.violation(f"raised:{entry}:{type(e).__name__}", f"{entry}: {text} -> {type(e).__name__}: {e}", {"entry": entry, "value": repr(text)})
+                    continue
+                mon.scan_lambda(entry, s.query_ast.args[1])
+
+
 def shard_main(ctx):
     capmod = modgen.load(CAP_SRC, "c13cap")
     ds = capmod.DS()
     mon = Mon(ctx)
     rnd = ctx.rnd
+    written_constants(mon, ds)
     if ctx.shard == 0:
         for p in valgen.PAYLOADS:
             run_value(mon, ds, capmod, p, rnd)
